@@ -3,7 +3,7 @@ import Rare.Proofs.C19Complete
 import Rare.Proofs.C19Fuel
 import Rare.Proofs.C19Lit
 import Rare.Proofs.C19Tok
-import Rare.Proofs.C19F64b
+import Rare.Proofs.C19F64c
 import Rare.Gen.C19
 /-!
 # C19 — math formulas follow the documented precedence; constants equal bound variables
@@ -547,6 +547,12 @@ theorem comparison_total (L : Libm) (op : Bytes)
   · rw [bin_andand]; exact cond_cases _
   · rw [bin_oror]; exact cond_cases _
 
+/-- `2 < 3` is 1, `NaN < 1`, `NaN == NaN` and `NaN >= NaN` are 0, `+Inf > 1e308` is 1, `!0` is 1, `-0 == 0` is 1. -/
+example : evalF64 (ascii "2 < 3") 0 = some one.bits ∧ evalF64 (ascii "x < 1") F64.nan.bits = some 0 ∧
+    evalF64 (ascii "x == x") F64.nan.bits = some 0 ∧ evalF64 (ascii "x >= x") F64.nan.bits = some 0 ∧
+    evalF64 (ascii "x > 1e308") (inf false).bits = some one.bits ∧ evalF64 (ascii "!x") 0 = some one.bits ∧
+    evalF64 (ascii "x == 0") (zero true).bits = some one.bits := by decide +kernel
+
 /-- **The comparisons are the order of the exact values**: on finite operands `<`, `<=`, `==` answer 1
     exactly when the real numbers the two floats denote compare that way (`-0 == 0` included). -/
 theorem comparison_is_value_order (L : Libm) (a b : F64) (ha : a.isFinite = true) (hb : b.isFinite = true) :
@@ -605,6 +611,46 @@ theorem nan_unary (L : Libm) (a : F64) (h : a.isNaN = true) :
     cases truthy b <;> decide +kernel
   · intro b; rw [bin_oror, truthy_nan h]; rfl
 
+/-- with x = NaN: `x+1`, `x*0`, `sqrt(x)` are NaN; `x && 1` is 1, `x || 0` is 1, `!x` is 0;
+    `x % 3` is `MinInt64 % 3 = -2` and `x & 1` is 0 (`int64(NaN)` on amd64) – the code's behaviour. -/
+example : F64.nan.isNaN = true ∧
+    evalF64 (ascii "x+1") F64.nan.bits = some F64.nan.bits ∧ evalF64 (ascii "x*0") F64.nan.bits = some F64.nan.bits ∧
+    evalF64 (ascii "sqrt(x)") F64.nan.bits = some F64.nan.bits ∧ evalF64 (ascii "x && 1") F64.nan.bits = some one.bits ∧
+    evalF64 (ascii "x || 0") F64.nan.bits = some one.bits ∧ evalF64 (ascii "!x") F64.nan.bits = some 0 ∧
+    evalF64 (ascii "x % 3") F64.nan.bits = some (ofInt (-2)).bits ∧ evalF64 (ascii "x & 1") F64.nan.bits = some 0 := by
+  decide +kernel
+
+/-- **`math.Pow`'s documented special cases** hold in the model of `^` bit for bit: `x^±0 = 1` and
+    `1^y = 1` for every operand (NaN included), `x^1 = x`, NaN otherwise propagates, and
+    `x^0.5 = sqrt x` for finite non-zero `x` (correctly rounded, unlike a generic `exp(y·log x)`). -/
+theorem pow_special_cases (L : Libm) (x y : F64) :
+    (y.mag = 0 → (arith L).bin [94] x y = one) ∧
+    ((arith L).bin [94] one y = one) ∧
+    (x ≠ one → (arith L).bin [94] x one = x) ∧
+    (x.isNaN = true → y.mag ≠ 0 → ((arith L).bin [94] x y).isNaN = true) ∧
+    (y.isNaN = true → x ≠ one → (arith L).bin [94] x y = F64.nan) ∧
+    (x.isFinite = true → x.mag ≠ 0 → x ≠ one → (arith L).bin [94] x half = sqrt x) := by
+  refine ⟨?_, ?_, ?_, ?_, ?_, ?_⟩
+  · intro h; rw [bin_pow, pow_y_zero h]; rfl
+  · rw [bin_pow, pow_one_y]; rfl
+  · intro h; rw [bin_pow, pow_x_one h]; rfl
+  · intro h1 h2
+    obtain ⟨r, hr, hn⟩ := pow_nan_x h1 h2
+    rw [bin_pow, hr]; exact hn
+  · intro h1 h2; rw [bin_pow, pow_nan_y h1 h2]; rfl
+  · intro h1 h2 h3; rw [bin_pow, pow_half h1 h2 h3]; rfl
+
+/-- `2^10` = 1024, `2^-1` = 0.5, `10^308` is 3 ulps above `1e308` (0x7FE1CCF385EBC8A0) – Go's
+    square-and-multiply loop rounds 12 times, and the model reproduces it bit for bit –, `10^309` = +Inf,
+    `2^-1074` is the smallest subnormal, `2^-1075` = 0, `(-8)^(1/3)`-like fractional powers of
+    negatives are NaN, `NaN^0` = 1, `(-2)^3` = -8, `0.1^2` is 0x3F847AE147AE147C (not 0.01 = …7B). -/
+example : evalF64 (ascii "2^10") 0 = some 0x4090000000000000 ∧ evalF64 (ascii "2^-1") 0 = some 0x3FE0000000000000 ∧
+    evalF64 (ascii "10^308") 0 = some 0x7FE1CCF385EBC8A3 ∧ evalF64 (ascii "1e308") 0 = some 0x7FE1CCF385EBC8A0 ∧ evalF64 (ascii "10^309") 0 = some 0x7FF0000000000000 ∧
+    evalF64 (ascii "2^-1074") 0 = some 1 ∧ evalF64 (ascii "2^-1075") 0 = some 0 ∧
+    evalF64 (ascii "(-8)^0.3") 0 = some F64.nan.bits ∧ evalF64 (ascii "x^0") F64.nan.bits = some one.bits ∧
+    evalF64 (ascii "(-2)^3") 0 = some 0xC020000000000000 ∧ evalF64 (ascii "0.1^2") 0 = some 0x3F847AE147AE147C := by
+  decide +kernel
+
 /-- **A numeric literal is `ParseInt`, else `ParseFloat`, of its text**, as in `compileToken`: a token
     that is not boxed denotes `float64(ParseInt(s, 0, 64))` when that succeeds (decimal, `0x`, `0b`, `0o`,
     leading-zero octal, underscores as Go allows them), and otherwise `strconv.ParseFloat(s, 64)` (the
@@ -659,6 +705,39 @@ example :
        decide (e1.eval arithT bT = none) && decide (e2.eval arithT bT = some (ofBits 0x4003504F333F9DE6)) &&
        decide (e3.eval arithT bT = some (ofBits 0x401F000000000000)) && decide (e4.eval arithT bT = none)
      | _, _, _, _ => false) = true := by
+  decide +kernel
+
+/-- **`{! formula}` end to end** (`kfMath`, funcsMath.go, for a constant formula text).  If the text
+    compiles, the builder returns a stage without a compile error, and on every context that stage
+    answers `strconv.FormatFloat(v, 'f', -1, 64)` of the binary64 value `v` of the common-order parse
+    under the binding "look the variable up, read the text with `strconv.ParseFloat`" – or `<BAD-TYPE>`;
+    and it is the former whenever every text the context can supply parses as a float. -/
+theorem kfmath_output_f64 (L : Libm) (s : Bytes) (t : Tree) (e : Expr F64)
+    (h : compile (arith L) s = .ok (t, e)) (ctx : Rare.Expr.Ctx) :
+    ∃ st, Rare.Expr.Funcs.Math.kfMathWith (mathInstL L) [Rare.Expr.Stage.lit s] = .ok ⟨some st, none⟩ ∧
+      (st.run ctx = .ok Rare.Expr.ErrorNum ∨
+       st.run ctx = .ok (render (t.eval (arith L) (classify (arith L)) (ctxBinding ctx)))) ∧
+      ((∀ i, (F64.parseFloat (ctx.getMatch i)).isSome = true) → (∀ k, (F64.parseFloat (ctx.getKey k)).isSome = true) →
+       st.run ctx = .ok (render (t.eval (arith L) (classify (arith L)) (ctxBinding ctx)))) := by
+  obtain ⟨st, h1, h2⟩ := kfMath_run L s t e h ctx
+  refine ⟨st, h1, ?_, ?_⟩
+  · by_cases hb : badLookups ctx e > 0
+    · left; rw [h2, if_pos hb]
+    · right; rw [h2, if_neg hb]
+  · intro hm hk
+    have hz : ¬ badLookups ctx e > 0 := by rw [badLookups_zero ctx hm hk e]; omega
+    rw [h2, if_neg hz]
+
+/-- `{! [0]*2 + x}` with `{0}` = "1.25", x = "1e-1" prints 2.6; with `{0}` = "abc" it prints `<BAD-TYPE>`. -/
+example :
+    let ctx1 : Rare.Expr.Ctx := ⟨fun _ => ascii "1.25", fun _ => ascii "1e-1"⟩
+    let ctx2 : Rare.Expr.Ctx := ⟨fun _ => ascii "abc", fun _ => ascii "1e-1"⟩
+    (match Rare.Expr.Funcs.Math.kfMathWith (mathInstL libm0) [Rare.Expr.Stage.lit (ascii "[0]*2 + x")] with
+     | .ok ⟨some st, none⟩ =>
+       (match st.run ctx1, st.run ctx2 with
+        | .ok a, .ok b => decide (a = ascii "2.6") && decide (b = ascii "<BAD-TYPE>")
+        | _, _ => false)
+     | _ => false) = true := by
   decide +kernel
 
 end ieee
